@@ -39,3 +39,13 @@ Theorem C15_roundtrip_refuted_before_fix :
   known t = true /\ dec [] ""%string (enc_root_with (fun s => s) ds t) <> norm (fun s => s) t.
 Proof. split; [vm_compute; reflexivity|vm_compute; discriminate]. Qed.
 Print Assumptions C15_roundtrip_refuted_before_fix.
+
+Example C15_nonvacuous :
+  let bpmn := "http://www.omg.org/spec/BPMN/20100524/MODEL" in
+  let t := T true bpmn "definitions" [("id", "defs")] None ""
+             [T true bpmn "process" [("id", "p"); ("isExecutable", "true")] None ""
+                [T true bpmn "sequenceFlow" [("id", "f"); ("sourceRef", "a"); ("targetRef", "b")] None ""
+                   [T true bpmn "conditionExpression" [] (Some true) "  x > 1 " []];
+                 T true bpmn "lane" [("id", "l")] None "" [T false bpmn "flowNodeRef" [] None "a" []]]] in
+  known t = true /\ dec [] ""%string (enc_root (fun s => s) t) = norm (fun s => s) t.
+Proof. vm_compute. split; reflexivity. Qed.
